@@ -2,7 +2,9 @@ package clntlab
 
 import (
 	"bytes"
+	"errors"
 	"fmt"
+	"io"
 	"regexp"
 	"runtime"
 	"sort"
@@ -800,7 +802,9 @@ func c10TagIface(ctx *core.Ctx) core.Result {
 // does not drain requests (full socket buffer). Every outstanding and every later call must still fail and return.
 func c10WriterBlocked(ctx *core.Ctx) core.Result {
 	var res core.Result
-	faults := []string{"close", "reset", "stall-undersize", "stall-oversize", "stall-badtype", "stall-unknowntag"}
+	// readfail-*: only the server-to-client direction breaks (half-closed / receive timeout): Read fails while the
+	// blocked Write stays blocked
+	faults := []string{"close", "reset", "stall-undersize", "stall-oversize", "stall-badtype", "stall-unknowntag", "readfail-eof", "readfail-err"}
 	for _, fault := range faults {
 		for k := 1; k <= 4; k++ {
 			res.Evals++
@@ -873,6 +877,10 @@ func c10WriterBlocked(ctx *core.Ctx) core.Result {
 				_, _ = p.Srv.Write([]byte{7, 0, 0, 0, 99, 1, 0})
 			case "stall-unknowntag":
 				_, _ = p.Srv.Write(wire.Encode(&wire.Msg{Type: wire.Rclunk, Tag: 0x7ABC}, true))
+			case "readfail-eof":
+				p.Cli.FailReadAfter(0, io.EOF)
+			case "readfail-err":
+				p.Cli.FailReadAfter(0, errors.New("read: i/o timeout"))
 			}
 			fin := make(chan struct{})
 			go func() {
